@@ -346,6 +346,43 @@ def inline_module(tree, modname):
                             rewrite(h.body)
                         i += 1
                 rewrite(caller.body)
+                # helpers that are a single `return <expr>` are also substituted in expression position
+                class ExprInl(ast.NodeTransformer):
+                    def visit_FunctionDef(self, node):
+                        if node is not caller:
+                            return node
+                        self.generic_visit(node)
+                        return node
+                    visit_AsyncFunctionDef = visit_FunctionDef
+
+                    def visit_Lambda(self, node):
+                        self.generic_visit(node)
+                        return node
+
+                    def visit_Call(self, node):
+                        self.generic_visit(node)
+                        h = match(node)
+                        if h is None:
+                            return node
+                        hb = [s_ for s_ in h.body if not (isinstance(s_, ast.Expr) and isinstance(s_.value, ast.Constant))]
+                        if len(hb) != 1 or not isinstance(hb[0], ast.Return) or hb[0].value is None:
+                            return node
+                        mapping = _bind(node, h, cname is not None)
+                        if mapping is None or not all(_simple(v) for v in mapping.values()):
+                            return node
+                        new = _Subst(mapping, {}).visit(copy.deepcopy(hb[0].value))
+                        for n_ in ast.walk(new):
+                            n_.lineno = getattr(node, "lineno", 1)
+                            n_.col_offset = getattr(node, "col_offset", 0)
+                            n_.end_lineno = getattr(node, "end_lineno", n_.lineno)
+                            n_.end_col_offset = getattr(node, "end_col_offset", 0)
+                        inlined[h.name] += 1
+                        nonlocal_changed[0] = True
+                        return new
+                nonlocal_changed = [False]
+                ExprInl().visit(caller)
+                if nonlocal_changed[0]:
+                    changed = True
             if not changed:
                 break
         # remaining (non-inlined) references anywhere in the module
